@@ -93,6 +93,15 @@ func initAllowed(path string) bool {
 	return strings.HasPrefix(path, "github.com/dlclark/regexp2")
 }
 
+// poolObjPtr returns the pointer identity of a pooled object (pools of the code under test hold pointers).
+func poolObjPtr(v value) (*value, bool) {
+	if it, ok := v.(iface); ok {
+		v = it.v
+	}
+	p, ok := v.(*value)
+	return p, ok && p != nil
+}
+
 func poolNewField(recv *value) *value {
 	st := (*recv).(structure)
 	return &st[len(st)-1] // New is the last field of sync.Pool
@@ -136,6 +145,15 @@ func init() {
 			}
 			poolPut(args[1])
 			old := X.pools[p]
+			// ownership discipline: an object is handed back once. The same pointer stored twice would be
+			// handed to two later callers (possibly two goroutines) at once.
+			if np, ok := poolObjPtr(args[1]); ok {
+				for _, e := range old {
+					if ep, ok := poolObjPtr(e); ok && ep == np {
+						X.violation("pool-double-put", "the same object was returned to a sync.Pool twice")
+					}
+				}
+			}
 			X.trailUndo(func() { X.pools[p] = old })
 			X.pools[p] = append(append([]value(nil), old...), args[1])
 			return nil, true
